@@ -745,7 +745,9 @@ func (cs *childState) execLine(l string) string {
 			derr = b.UnmarshalBinary(g)
 			return ""
 		})
-		structural := derr != nil && !strings.HasPrefix(codec.ErrClass(derr), "op-")
+		// errors of the header / offset / container sections; an op-log error, or the replay's
+		// refusal of an inconsistent container (trees with the lazy check), come after the load
+		structural := derr != nil && !strings.HasPrefix(codec.ErrClass(derr), "op-") && codec.ErrClass(derr) != "ill-formed"
 		// The containers as loaded, before the op log is replayed: for Pilosa data whose header,
 		// offset and container sections were accepted, the hook repeats the walk over the header and
 		// offset sections. Inconsistent containers are reported whatever the replay of the op
